@@ -127,6 +127,45 @@ def Layer.init (s : σ) : Layer σ Ev Cmd Reply := ⟨s, none, [], [], []⟩
 
 end core
 
+/-! ### reference semantics: blocking code (what `sequential_blocking_equivalence` in Props compares with) -/
+section reference
+variable {σ Ev Cmd Reply : Type}
+
+/-- result of the reference interpreter -/
+structure SeqCfg (σ Ev Cmd Reply : Type) where
+  st      : σ
+  waiting : Option (Cmd × (Reply → Gen σ Cmd Reply))   -- the handler in progress, blocked on this command
+  log     : List (Entry Ev Cmd Reply)
+  out     : Out Cmd
+  todo    : List (Event Ev Cmd Reply)                   -- events whose handler has not been started
+  unused  : List Reply
+
+/-- **Reference semantics: blocking code.**  One thread of control, no queue, no command matching, no
+    interleaving: `xs` are the events to handle, `rs` the answers to the blocking commands in the order the
+    commands are issued.  If a handler is in progress and blocked, it takes the next answer and continues
+    (`run` = execute until the handler returns or blocks again); only when no handler is in progress is the
+    next event taken and its handler started — the handler bound in the CURRENT state.  It stops when it needs
+    an answer / an event that is not there. -/
+def seq (H : Handler σ Ev Cmd Reply) (nil : Reply) (st : σ) (waiting : Option (Cmd × (Reply → Gen σ Cmd Reply)))
+    (log : List (Entry Ev Cmd Reply)) (out : Out Cmd) (xs : List (Event Ev Cmd Reply)) (rs : List Reply) :
+    SeqCfg σ Ev Cmd Reply :=
+  match waiting with
+  | some (c, k) =>
+    match rs with
+    | [] => ⟨st, some (c, k), log, out, xs, []⟩
+    | r :: rs' =>
+      seq H nil (run (Ev := Ev) nil (k r)).st (run (Ev := Ev) nil (k r)).paused
+        (log ++ .resume c r :: (run (Ev := Ev) nil (k r)).ents) (out ++ (run (Ev := Ev) nil (k r)).out) xs rs'
+  | none =>
+    match xs with
+    | [] => ⟨st, none, log, out, [], rs⟩
+    | ev :: xs' =>
+      seq H nil (run (Ev := Ev) nil (H st ev)).st (run (Ev := Ev) nil (H st ev)).paused
+        (log ++ .handle ev :: (run (Ev := Ev) nil (H st ev)).ents) (out ++ (run (Ev := Ev) nil (H st ev)).out) xs' rs
+termination_by xs.length + rs.length
+
+end reference
+
 /-! ### parent layers relaying child layers -/
 section composite
 variable {σp σc Ev Cmd Reply : Type}
